@@ -47,6 +47,7 @@ e0ba138:C09
 7e3acd0:C19
 4f685e4:C08
 e53eedd:C08
+aa19a68:C16
 "
 [ -n "$REVERT_ONLY" ] && PAIRS="$REVERT_ONLY"
 for pair in $PAIRS; do
